@@ -41,7 +41,7 @@ var recShapes = []recShape{
 	{name: "struct {B, A, X, N1, N2, C chan}", size: 48, present: [6]bool{true, false, true, true, true, true}, off: [6]int64{8, 0, 0, 24, 32, 40},
 		fields: func(tA, tB, tX, tN1, tN2, tC *cpRType) []cpRField {
 			return []cpRField{{Name: "B", Tag: `json:"b"`, Type: tB, Offset: 0}, {Name: "A", Tag: `json:"a"`, Type: tA, Offset: 8}, {Name: "X", Type: tX, Offset: 16},
-				{Name: "N1", Tag: `json:"n1"`, Type: tN1, Offset: 24}, {Name: "N2", Tag: `json:"n2"`, Type: tN2, Offset: 32}, {Name: "C", Tag: `json:"c"`, Type: tC, Offset: 40}}
+				{Name: "N1", Tag: `json:"N1"`, Type: tN1, Offset: 24}, {Name: "N2", Tag: `json:"n2"`, Type: tN2, Offset: 32}, {Name: "C", Tag: `json:"c"`, Type: tC, Offset: 40}}
 		}},
 	// the property's own corner: a struct with no matching field still consumes the record, field by field, once
 	{name: "struct {X} (no field of the schema)", size: 8,
@@ -60,12 +60,38 @@ var recShapes = []recShape{
 	// its name alone, what it can hold is for the field's own codec builder to accept or refuse
 	{name: "struct {X, N1 *Inner1} (a nested record through a pointer)", size: 16, present: [6]bool{false, false, false, true, false, false}, off: [6]int64{0, 0, 0, 8, 0, 0},
 		fields: func(tA, tB, tX, tN1, tN2, tC *cpRType) []cpRField {
-			return []cpRField{{Name: "X", Type: tX, Offset: 0}, {Name: "N1", Tag: `json:"n1"`, Type: &cpRType{ID: "*" + tN1.ID, Kind: int64(reflect.Ptr), Elem: tN1, Size: 8}, Offset: 8}}
+			return []cpRField{{Name: "X", Type: tX, Offset: 0}, {Name: "N1", Tag: `json:"N1"`, Type: &cpRType{ID: "*" + tN1.ID, Kind: int64(reflect.Ptr), Elem: tN1, Size: 8}, Offset: 8}}
+		}},
+	// embedded structs: a field of the struct itself is the one its name denotes, wherever an embedded struct with a
+	// field of the same name is declared; an embedded struct without a tag is the field named after its type, and is
+	// built for as that type (a registered type embedded in a struct is still that type)
+	{name: "struct {A; Emb{A}} (an embedded struct declared after a field it shares a name with)", size: 16, present: [6]bool{true, false, false, false, false, false}, off: [6]int64{0, 0, 0, 0, 0, 0},
+		fields: func(tA, tB, tX, tN1, tN2, tC *cpRType) []cpRField {
+			return []cpRField{{Name: "A", Tag: `json:"a"`, Type: tA, Offset: 0}, {Name: "Emb", Type: recEmb(tA), Offset: 8, Anonymous: true}}
+		}},
+	{name: "struct {Emb{A}; A} (an embedded struct declared before a field it shares a name with)", size: 16, present: [6]bool{true, false, false, false, false, false}, off: [6]int64{8, 0, 0, 0, 0, 0},
+		fields: func(tA, tB, tX, tN1, tN2, tC *cpRType) []cpRField {
+			return []cpRField{{Name: "Emb", Type: recEmb(tA), Offset: 0, Anonymous: true}, {Name: "A", Tag: `json:"a"`, Type: tA, Offset: 8}}
+		}},
+	{name: "struct {X; N1} (an embedded struct of unexported fields, named by its type)", size: 16, present: [6]bool{false, false, false, true, false, false}, off: [6]int64{0, 0, 0, 8, 0, 0},
+		fields: func(tA, tB, tX, tN1, tN2, tC *cpRType) []cpRField {
+			op := cpRTypeOfKind(reflect.Struct, false)
+			op.ID, op.Name, op.Size = "fx.N1", "N1", 8
+			op.Fields = []cpRField{{Name: "wall", PkgPath: "example.com/fx-pkg", Type: tA, Offset: 0}}
+			return []cpRField{{Name: "X", Type: tX, Offset: 0}, {Name: "N1", Type: op, Offset: 8, Anonymous: true}}
 		}},
 	{name: "struct {B, X} (only a middle schema field)", size: 16, present: [6]bool{false, false, true, false, false, false}, off: [6]int64{0, 0, 0, 0, 0, 0},
 		fields: func(tA, tB, tX, tN1, tN2, tC *cpRType) []cpRField {
 			return []cpRField{{Name: "B", Tag: `json:"b"`, Type: tB, Offset: 0}, {Name: "X", Type: tX, Offset: 8}}
 		}},
+}
+
+// recEmb is a struct type with one field, A, named "a".
+func recEmb(tA *cpRType) *cpRType {
+	t := cpRTypeOfKind(reflect.Struct, false)
+	t.ID, t.Name, t.Size = "fx.Emb", "Emb", 8
+	t.Fields = []cpRField{{Name: "A", Tag: `json:"a"`, Type: tA, Offset: 0}}
+	return t
 }
 
 // recordByFold folds the record builder and the record codec's Read and Skip for every shape of recShapes;
@@ -94,7 +120,7 @@ func recordByFold(P *Program) *recFold {
 			}
 		}
 	}
-	r.detail += fmt.Sprintf("; repeated for %d target shapes in all (no, only the first, only the last, only a middle schema field present, a nested record through a pointer)", len(recShapes))
+	r.detail += fmt.Sprintf("; repeated for %d target shapes in all (no, only the first, only the last, only a middle schema field present, a nested record through a pointer, embedded structs declared before and after a field they share a name with, an embedded struct of unexported fields)", len(recShapes))
 	return r
 }
 
@@ -146,7 +172,7 @@ func recordFoldOne(P *Program, sh recShape) *recFold {
 		return &cpCell{V: cpStructOf(fieldT, map[string]cpVal{"Name": cpStr{name}, "Type": cpStructOf(schemaT, map[string]cpVal{"Type": cpStr{typ}})}), T: fieldT}
 	}
 	// n1 defines a named type, n2 refers to it by name; c meets a struct field of a kind nothing decodes into
-	inner := &cpCell{V: cpStructOf(fieldT, map[string]cpVal{"Name": cpStr{"n1"}, "Type": cpStructOf(schemaT, map[string]cpVal{"Type": cpStr{"record"}, "Object": cpPtrTo(cpStructOf(objT, map[string]cpVal{"Name": cpStr{"Inner"}}), objT)})}), T: fieldT}
+	inner := &cpCell{V: cpStructOf(fieldT, map[string]cpVal{"Name": cpStr{"N1"}, "Type": cpStructOf(schemaT, map[string]cpVal{"Type": cpStr{"record"}, "Object": cpPtrTo(cpStructOf(objT, map[string]cpVal{"Name": cpStr{"Inner"}}), objT)})}), T: fieldT}
 	fields := cpSlice{Elems: []*cpCell{mkField("a", "long"), mkField("gone", "string"), mkField("b", "double"), inner, mkField("n2", "Inner"), mkField("c", "long")}}
 	schema := cpStructOf(schemaT, map[string]cpVal{"Type": cpStr{"record"}, "Object": cpPtrTo(cpStructOf(objT, map[string]cpVal{"Name": cpStr{"R"}, "Fields": fields}), objT)})
 	tB, tA, tX := cpRTypeOfKind(reflect.Float64, false), cpRTypeOfKind(reflect.Int64, false), cpRTypeOfKind(reflect.Int32, false)
@@ -249,14 +275,14 @@ func recordFoldOne(P *Program, sh recShape) *recFold {
 	wantSchema := []string{"long", "string", "double", "record", "Inner", "long"}
 	wantTyp := []cpVal{tA, cpNil{}, tB, tN1, tN2, tC}
 	wantOff := sh.off[:]
-	for k, nm := range []string{"a", "gone", "b", "n1", "n2", "c"} {
+	for k, nm := range []string{"a", "gone", "b", "N1", "n2", "c"} {
 		if !sh.present[k] {
 			wantTyp[k] = cpNil{}
 			continue
 		}
 		// the Go type is that of the shape's own field of that name (a shape may hold a nested record through a pointer)
 		for _, f := range rt.Fields {
-			if strings.Contains(f.Tag, `json:"`+nm+`"`) {
+			if strings.Contains(f.Tag, `json:"`+nm+`"`) || (f.Tag == "" && f.Name == nm) {
 				wantTyp[k] = f.Type
 			}
 		}
